@@ -53,70 +53,75 @@ theorem KeySet.sub_sound {A B : KeySet} (h : A.sub B = true) {c : Nat} (ha : A.h
 
 /-! ## 2. The first sets are sound -/
 
-theorem transparent_pos {G : Grammar} {ρ : String → Nat → Bool} {inp e p p1 f1 evs}
-    (ht : Expr.transparent e = true) (h : Eval G ρ inp e p (.ok p1 f1) evs) : p1 = p := by
-  cases e <;> simp [Expr.transparent] at ht <;> cases h <;> rfl
-
-theorem unionO_some {a b : Option KeySet} {K : KeySet} (h : unionO a b = some K) :
-    ∃ A B, a = some A ∧ b = some B ∧ K = A ++ B := by
-  cases a <;> cases b <;> simp [unionO] at h
-  exact ⟨_, _, rfl, rfl, h.symm⟩
-
-/-- The first set of a choice contains that of every alternative (at a smaller fuel). -/
-theorem firstE_alt_mem {G : Grammar} : ∀ (es : List Expr) (f : Nat) (K : KeySet),
-    firstE G f (.alt es) = some K → ∀ e ∈ es, ∃ f' K', f' < f ∧ firstE G f' e = some K' ∧
-      ∀ c, K'.has c = true → K.has c = true
-  | [], _, _, _ => by intro e he; cases he
-  | [a], f, K, h => by
-    intro e he
-    cases f with
-    | zero => simp [firstE] at h
-    | succ f =>
-      simp only [List.mem_singleton] at he
-      subst he
-      simp only [firstE] at h
-      exact ⟨f, K, Nat.lt_succ_self _, h, fun _ hc => hc⟩
-  | a :: b :: rest, f, K, h => by
-    intro e he
-    cases f with
-    | zero => simp [firstE] at h
-    | succ f =>
-      simp only [firstE] at h
-      obtain ⟨A, B, hA, hB, rfl⟩ := unionO_some h
-      rcases List.mem_cons.mp he with rfl | he
-      · exact ⟨f, A, Nat.lt_succ_self _, hA, fun c hc => by simp [KeySet.has_append, hc]⟩
-      · obtain ⟨f', K', hlt, hK', hsub⟩ := firstE_alt_mem (b :: rest) f B hB e he
-        exact ⟨f', K', by omega, hK', fun c hc => by simp [KeySet.has_append, hsub c hc]⟩
-
 theorem peek_of_some {inp : List Sym} {p : Nat} {c : Sym} (h : inp[p]? = some c) : peek inp p = c := by
   simp [peek, h]
 
-/-- **Soundness of the first sets**: an expression can only succeed where the next symbol (the end
-    symbol beyond the input) is in its first set. -/
-theorem firstE_sound {G : Grammar} {ρ : String → Nat → Bool} {inp : List Sym} :
-    ∀ (f : Nat) (e : Expr) (K : KeySet) (p p' : Nat) (fo : List TokTree) (evs : List Token),
-      firstE G f e = some K → Eval G ρ inp e p (.ok p' fo) evs → K.has (peek inp p) = true := by
+/-- What `firstZ` promises. -/
+def ZOK (inp : List Sym) (K : KeySet) (n : Bool) (p p' : Nat) : Prop :=
+  K.has (peek inp p) = true ∨ (n = true ∧ p' = p)
+
+theorem ZOK.mono {inp K K' n n' p p'} (h : ZOK inp K n p p')
+    (hK : ∀ c, K.has c = true → K'.has c = true) (hn : n = true → n' = true) : ZOK inp K' n' p p' := by
+  rcases h with h | ⟨h1, h2⟩
+  · exact .inl (hK _ h)
+  · exact .inr ⟨hn h1, h2⟩
+
+/-- The first set of a choice contains that of every alternative (at a smaller fuel). -/
+theorem firstZ_alt_mem {G : Grammar} : ∀ (es : List Expr) (f : Nat) (K : KeySet) (n : Bool),
+    firstZ G f (.alt es) = some (K, n) → ∀ e ∈ es, ∃ f' K' n', f' < f ∧ firstZ G f' e = some (K', n') ∧
+      (∀ c, K'.has c = true → K.has c = true) ∧ (n' = true → n = true)
+  | [], _, _, _, _ => by intro e he; cases he
+  | a :: rest, f, K, n, h => by
+    intro e he
+    cases f with
+    | zero => simp [firstZ] at h
+    | succ f =>
+      simp only [firstZ] at h
+      cases ha : firstZ G f a with
+      | none => simp [ha] at h
+      | some pa =>
+        obtain ⟨K1, n1⟩ := pa
+        cases hr : firstZ G f (.alt rest) with
+        | none => simp [ha, hr] at h
+        | some pr =>
+          obtain ⟨K2, n2⟩ := pr
+          simp only [ha, hr, Option.some.injEq, Prod.mk.injEq] at h
+          obtain ⟨rfl, rfl⟩ := h
+          rcases List.mem_cons.mp he with rfl | he
+          · exact ⟨f, K1, n1, Nat.lt_succ_self _, ha, fun c hc => by simp [KeySet.has_append, hc],
+              fun hn => by simp [hn]⟩
+          · obtain ⟨f', K', n', hlt, hK', hsub, hnn⟩ := firstZ_alt_mem rest f K2 n2 hr e he
+            exact ⟨f', K', n', by omega, hK', fun c hc => by simp [KeySet.has_append, hsub c hc],
+              fun hn => by simp [hnn hn]⟩
+
+/-- **Soundness of the first sets with nullability.** -/
+theorem firstZ_sound {G : Grammar} {ρ : String → Nat → Bool} {inp : List Sym} :
+    ∀ (f : Nat) (e : Expr) (K : KeySet) (n : Bool) (p p' : Nat) (fo : List TokTree) (evs : List Token),
+      firstZ G f e = some (K, n) → Eval G ρ inp e p (.ok p' fo) evs → ZOK inp K n p p' := by
   intro f
   induction f using Nat.strongRecOn with
   | _ f IH =>
-    intro e K p p' fo evs hF hE
+    intro e K n p p' fo evs hF hE
     cases f with
-    | zero => simp [firstE] at hF
+    | zero => simp [firstZ] at hF
     | succ f =>
       cases e with
       | chr c =>
-        simp only [firstE, Option.some.injEq] at hF; subst hF
+        simp only [firstZ, Option.some.injEq, Prod.mk.injEq] at hF
+        obtain ⟨rfl, rfl⟩ := hF
         cases hE with
-        | chr_ok h => rw [peek_of_some h]; simp [KeySet.has]
+        | chr_ok h => left; rw [peek_of_some h]; simp [KeySet.has]
       | rng lo hi =>
-        simp only [firstE, Option.some.injEq] at hF; subst hF
+        simp only [firstZ, Option.some.injEq, Prod.mk.injEq] at hF
+        obtain ⟨rfl, rfl⟩ := hF
         cases hE with
-        | rng_ok h h1 h2 => rw [peek_of_some h]; simp [KeySet.has, h1, h2]
+        | rng_ok h h1 h2 => left; rw [peek_of_some h]; simp [KeySet.has, h1, h2]
       | str s =>
         cases s with
-        | nil => simp [firstE] at hF
+        | nil => simp [firstZ] at hF
         | cons c s =>
-          simp only [firstE, Option.some.injEq] at hF; subst hF
+          simp only [firstZ, Option.some.injEq, Prod.mk.injEq] at hF
+          obtain ⟨rfl, rfl⟩ := hF
           cases hE with
           | str_ok h =>
             simp only [matchesAt, Bool.and_eq_true, decide_eq_true_eq, beq_iff_eq] at h
@@ -125,69 +130,200 @@ theorem firstE_sound {G : Grammar} {ρ : String → Nat → Bool} {inp : List Sy
               simp only [List.length_cons, List.getElem?_cons_zero] at this
               rw [List.getElem?_take_of_lt (by omega), List.getElem?_drop] at this
               simpa using this
-            rw [peek_of_some h1]; simp [KeySet.has]
-      | name n =>
-        simp only [firstE] at hF
+            left; rw [peek_of_some h1]; simp [KeySet.has]
+      | name nm =>
+        simp only [firstZ] at hF
         cases hE with
         | name hb he =>
           simp only [hb] at hF
-          exact IH f (Nat.lt_succ_self _) _ _ _ _ _ _ hF he
-      | inl n e =>
-        simp only [firstE] at hF
+          exact IH f (Nat.lt_succ_self _) _ _ _ _ _ _ _ hF he
+      | inl nm e =>
+        simp only [firstZ] at hF
         cases hE with
-        | inl he => exact IH f (Nat.lt_succ_self _) _ _ _ _ _ _ hF he
+        | inl he => exact IH f (Nat.lt_succ_self _) _ _ _ _ _ _ _ hF he
       | seq es =>
         cases es with
-        | nil => simp [firstE] at hF
+        | nil =>
+          simp only [firstZ, Option.some.injEq, Prod.mk.injEq] at hF
+          obtain ⟨rfl, rfl⟩ := hF
+          cases hE with
+          | seq_nil => exact .inr ⟨rfl, rfl⟩
         | cons e es =>
-          simp only [firstE] at hF
+          simp only [firstZ] at hF
           cases hE with
           | seq_ok h1 h2 =>
-            by_cases ht : e.transparent = true
-            · simp only [ht, if_true] at hF
-              have := transparent_pos ht h1
-              subst this
-              exact IH f (Nat.lt_succ_self _) _ _ _ _ _ _ hF h2
-            · simp only [ht] at hF
-              exact IH f (Nat.lt_succ_self _) _ _ _ _ _ _ hF h1
+            cases he : firstZ G f e with
+            | none => simp [he] at hF
+            | some pe =>
+              obtain ⟨K1, n1⟩ := pe
+              have ih1 := IH f (Nat.lt_succ_self _) _ _ _ _ _ _ _ he h1
+              cases n1 with
+              | false =>
+                simp only [he, Option.some.injEq, Prod.mk.injEq] at hF
+                obtain ⟨rfl, rfl⟩ := hF
+                rcases ih1 with h | ⟨h, _⟩
+                · exact .inl h
+                · cases h
+              | true =>
+                simp only [he] at hF
+                cases hr : firstZ G f (.seq es) with
+                | none => simp [hr] at hF
+                | some pr =>
+                  obtain ⟨K2, n2⟩ := pr
+                  simp only [hr, Option.some.injEq, Prod.mk.injEq] at hF
+                  obtain ⟨rfl, rfl⟩ := hF
+                  rcases ih1 with h | ⟨_, hp⟩
+                  · exact .inl (by simp [KeySet.has_append, h])
+                  · subst hp
+                    have ih2 := IH f (Nat.lt_succ_self _) _ _ _ _ _ _ _ hr h2
+                    exact ih2.mono (fun c hc => by simp [KeySet.has_append, hc]) id
       | alt es =>
         cases es with
         | nil => cases hE
         | cons e es =>
-          cases es with
-          | nil =>
-            simp only [firstE] at hF
-            cases hE with
-            | alt_last he => exact IH f (Nat.lt_succ_self _) _ _ _ _ _ _ hF he
-          | cons e' es =>
-            simp only [firstE] at hF
-            obtain ⟨A, B, hA, hB, rfl⟩ := unionO_some hF
-            cases hE with
-            | alt_ok he =>
-              simp [KeySet.has_append, IH f (Nat.lt_succ_self _) _ _ _ _ _ _ hA he]
-            | alt_next _ h2 =>
-              simp [KeySet.has_append, IH f (Nat.lt_succ_self _) _ _ _ _ _ _ hB h2]
+          simp only [firstZ] at hF
+          cases he : firstZ G f e with
+          | none => simp [he] at hF
+          | some pe =>
+            obtain ⟨K1, n1⟩ := pe
+            cases hr : firstZ G f (.alt es) with
+            | none => simp [he, hr] at hF
+            | some pr =>
+              obtain ⟨K2, n2⟩ := pr
+              simp only [he, hr, Option.some.injEq, Prod.mk.injEq] at hF
+              obtain ⟨rfl, rfl⟩ := hF
+              cases hE with
+              | alt_last h1 =>
+                exact (IH f (Nat.lt_succ_self _) _ _ _ _ _ _ _ he h1).mono
+                  (fun c hc => by simp [KeySet.has_append, hc]) (fun h => by simp [h])
+              | alt_ok h1 =>
+                exact (IH f (Nat.lt_succ_self _) _ _ _ _ _ _ _ he h1).mono
+                  (fun c hc => by simp [KeySet.has_append, hc]) (fun h => by simp [h])
+              | alt_next _ h2 =>
+                exact (IH f (Nat.lt_succ_self _) _ _ _ _ _ _ _ hr h2).mono
+                  (fun c hc => by simp [KeySet.has_append, hc]) (fun h => by simp [h])
       | ualt ks es =>
-        simp only [firstE] at hF
+        simp only [firstZ] at hF
         cases hE with
         | ualt hidx he =>
-          obtain ⟨f', K', hlt, hK', hsub⟩ := firstE_alt_mem es f K hF _ (List.mem_of_getElem? hidx)
-          exact hsub _ (IH f' (by omega) _ _ _ _ _ _ hK' he)
+          obtain ⟨f', K', n', hlt, hK', hsub, hnn⟩ :=
+            firstZ_alt_mem es f K n hF _ (List.mem_of_getElem? hidx)
+          exact (IH f' (by omega) _ _ _ _ _ _ _ hK' he).mono hsub hnn
       | plus e =>
-        simp only [firstE] at hF
+        simp only [firstZ] at hF
+        cases he : firstZ G f e with
+        | none => simp [he] at hF
+        | some pe =>
+          obtain ⟨K1, n1⟩ := pe
+          cases n1 with
+          | true => simp [he] at hF
+          | false =>
+            simp only [he, Option.some.injEq, Prod.mk.injEq] at hF
+            obtain ⟨rfl, rfl⟩ := hF
+            cases hE with
+            | plus_ok h1 _ =>
+              rcases IH f (Nat.lt_succ_self _) _ _ _ _ _ _ _ he h1 with h | ⟨h, _⟩
+              · exact .inl h
+              · cases h
+      | query e =>
+        simp only [firstZ] at hF
+        cases he : firstZ G f e with
+        | none => simp [he] at hF
+        | some pe =>
+          obtain ⟨K1, n1⟩ := pe
+          simp only [he, Option.some.injEq, Prod.mk.injEq] at hF
+          obtain ⟨rfl, rfl⟩ := hF
+          cases hE with
+          | query_ok h1 =>
+            exact (IH f (Nat.lt_succ_self _) _ _ _ _ _ _ _ he h1).mono (fun _ hc => hc) (fun _ => rfl)
+          | query_none _ => exact .inr ⟨rfl, rfl⟩
+      | star e =>
+        simp only [firstZ] at hF
+        cases he : firstZ G f e with
+        | none => simp [he] at hF
+        | some pe =>
+          obtain ⟨K1, n1⟩ := pe
+          cases n1 with
+          | true => simp [he] at hF
+          | false =>
+            simp only [he, Option.some.injEq, Prod.mk.injEq] at hF
+            obtain ⟨rfl, rfl⟩ := hF
+            cases hE with
+            | star_stop _ => exact .inr ⟨rfl, rfl⟩
+            | star_step h1 _ =>
+              rcases IH f (Nat.lt_succ_self _) _ _ _ _ _ _ _ he h1 with h | ⟨h, _⟩
+              · exact .inl h
+              · cases h
+      | peekFor e =>
+        simp only [firstZ, Option.some.injEq, Prod.mk.injEq] at hF
+        obtain ⟨rfl, rfl⟩ := hF
         cases hE with
-        | plus_ok h1 _ => exact IH f (Nat.lt_succ_self _) _ _ _ _ _ _ hF h1
+        | peekFor_ok _ => exact .inr ⟨rfl, rfl⟩
+      | peekNot e =>
+        simp only [firstZ, Option.some.injEq, Prod.mk.injEq] at hF
+        obtain ⟨rfl, rfl⟩ := hF
+        cases hE with
+        | peekNot_ok _ => exact .inr ⟨rfl, rfl⟩
+      | pred c =>
+        simp only [firstZ, Option.some.injEq, Prod.mk.injEq] at hF
+        obtain ⟨rfl, rfl⟩ := hF
+        cases hE with
+        | pred_ok _ => exact .inr ⟨rfl, rfl⟩
+      | stmt c =>
+        simp only [firstZ, Option.some.injEq, Prod.mk.injEq] at hF
+        obtain ⟨rfl, rfl⟩ := hF
+        cases hE; exact .inr ⟨rfl, rfl⟩
+      | act c =>
+        simp only [firstZ, Option.some.injEq, Prod.mk.injEq] at hF
+        obtain ⟨rfl, rfl⟩ := hF
+        cases hE; exact .inr ⟨rfl, rfl⟩
+      | nil =>
+        simp only [firstZ, Option.some.injEq, Prod.mk.injEq] at hF
+        obtain ⟨rfl, rfl⟩ := hF
+        cases hE; exact .inr ⟨rfl, rfl⟩
       | push e r =>
-        simp only [firstE] at hF
+        simp only [firstZ] at hF
         cases hE with
-        | push_ok _ h1 => exact IH f (Nat.lt_succ_self _) _ _ _ _ _ _ hF h1
-        | push_act => cases f <;> simp [firstE] at hF
+        | push_ok _ h1 => exact IH f (Nat.lt_succ_self _) _ _ _ _ _ _ _ hF h1
+        | push_act =>
+          cases f with
+          | zero => simp [firstZ] at hF
+          | succ f =>
+            simp only [firstZ, Option.some.injEq, Prod.mk.injEq] at hF
+            obtain ⟨rfl, rfl⟩ := hF
+            exact .inr ⟨rfl, rfl⟩
       | ipush e r =>
-        simp only [firstE] at hF
+        simp only [firstZ] at hF
         cases hE with
-        | ipush_ok _ h1 => exact IH f (Nat.lt_succ_self _) _ _ _ _ _ _ hF h1
-        | ipush_act => cases f <;> simp [firstE] at hF
-      | _ => simp [firstE] at hF
+        | ipush_ok _ h1 => exact IH f (Nat.lt_succ_self _) _ _ _ _ _ _ _ hF h1
+        | ipush_act =>
+          cases f with
+          | zero => simp [firstZ] at hF
+          | succ f =>
+            simp only [firstZ, Option.some.injEq, Prod.mk.injEq] at hF
+            obtain ⟨rfl, rfl⟩ := hF
+            exact .inr ⟨rfl, rfl⟩
+      | dot => simp [firstZ] at hF
+
+/-- **Soundness of the first sets**: an expression can only succeed where the next symbol (the end
+    symbol beyond the input) is in its first set. -/
+theorem firstE_sound {G : Grammar} {ρ : String → Nat → Bool} {inp : List Sym} :
+    ∀ (f : Nat) (e : Expr) (K : KeySet) (p p' : Nat) (fo : List TokTree) (evs : List Token),
+      firstE G f e = some K → Eval G ρ inp e p (.ok p' fo) evs → K.has (peek inp p) = true := by
+  intro f e K p p' fo evs hF hE
+  unfold firstE at hF
+  cases hz : firstZ G f e with
+  | none => simp [hz] at hF
+  | some pz =>
+    obtain ⟨K1, n1⟩ := pz
+    cases n1 with
+    | true => simp [hz] at hF
+    | false =>
+      simp only [hz, Option.some.injEq] at hF
+      subst hF
+      rcases firstZ_sound f e K1 false p p' fo evs hz hE with h | ⟨h, _⟩
+      · exact h
+      · cases h
 
 /-! ## 3. Ordered choice, flattened -/
 
